@@ -617,6 +617,9 @@ pub fn trim_element(e: &Element) {
 
     // this attribute is MathCAT's own scratch marker (an integer) -- a value supplied by the author must not be mistaken for it
     e.remove_attribute(crate::chemistry::MAYBE_CHEMISTRY);
+    // the same goes for the markers of a split or merged token -- chemistry.rs undoes the split/merge of a token that carries one
+    e.remove_attribute(crate::chemistry::SPLIT_TOKEN);
+    e.remove_attribute(crate::chemistry::MERGED_TOKEN);
 
     if is_leaf(*e) {
         // Assume it is HTML inside of the leaf -- turn the HTML into a string
